@@ -3,8 +3,9 @@
 
     [Params/Model.v] (group params) models [Params.Validate] with nil-able fields and denom classes;
     [Coinswap/Model.v] models it on present fields and denom indices ([0 <= cdenom] = a valid denom).
-    The proofs peel the validator's tests generically, so a further test added there (e.g. the 255-bit
-    bound of the creation fee, which [params_valid] already has) does not break them. *)
+    The proofs peel the validator's tests generically ([two255] of the foreign model is the only name
+    they mention).  NOTHING of Props/C01.v / Props/C02.v depends on this file: the two link theorems
+    live in [Coinswap/LinkParamsProps.v], so a change of the foreign model can break only them. *)
 From Irismod Require Import Coinswap.Model Coinswap.ProofsSpec Coinswap.Proofs Coinswap.ProofsValue.
 From Irismod Require Params.Model.
 From Coq Require Import Lia ZifyBool.
@@ -27,6 +28,7 @@ Proof.
   intros Hd Hv. apply params_valid_range in Hv. pose proof pow255_pos.
   unfold Params.Model.validate_cs, to_cs, Params.Model.in_open01. cbn [Params.Model.cs_fee Params.Model.cs_pcf
     Params.Model.cs_tax Params.Model.cs_uni Params.Model.c_denom Params.Model.c_amt]. rewrite Hd.
+  change Params.Model.two255 with (2 ^ 255).
   set (B := 2 ^ 255) in *. clearbody B.
   repeat match goal with
          | |- (if ?c then _ else _) = Ok => let E := fresh "E" in destruct c eqn:E; [exfalso; lia|]
@@ -42,6 +44,7 @@ Proof.
   intros Hc Hb. pose proof pow255_pos.
   unfold Params.Model.validate_cs, to_cs, Params.Model.in_open01, params_valid. cbn [Params.Model.cs_fee Params.Model.cs_pcf
     Params.Model.cs_tax Params.Model.cs_uni Params.Model.c_denom Params.Model.c_amt].
+  change Params.Model.two255 with (2 ^ 255).
   set (B := 2 ^ 255) in *. clearbody B. intros HV.
   repeat match type of HV with
          | (if ?c then _ else _) = Ok => let E := fresh "E" in destruct c eqn:E; [discriminate HV|]
